@@ -250,12 +250,21 @@ impl State for FileState {
             entry_command.put_u32_le(command_length as u32);
             entry_command.extend(command_payload);
             let command = entry_command.freeze();
-            EntryCommand::from_bytes(command.clone()).with_error_context(|error| {
-                format!("{COMPONENT} (error: {error}) - failed to parse entry command from bytes")
-            })?;
             let calculated_checksum = StateEntry::calculate_checksum(
                 index, term, leader_id, version, flags, timestamp, user_id, &context, &command,
             );
+            // The checksum has to be verified before the command is parsed: the decoders trust their
+            // input and panic (or misread it) when the stored bytes have been damaged.
+            if calculated_checksum != checksum {
+                return Err(IggyError::InvalidStateEntryChecksum(
+                    calculated_checksum,
+                    checksum,
+                    index,
+                ));
+            }
+            EntryCommand::from_bytes(command.clone()).with_error_context(|error| {
+                format!("{COMPONENT} (error: {error}) - failed to parse entry command from bytes")
+            })?;
             let entry = StateEntry::new(
                 index,
                 term,
